@@ -1,19 +1,46 @@
-(* C04/Corr.v — correspondence runner: model output vs observed output, spec on observed output *)
+(* C04/Corr.v — correspondence runner: model output vs observed output, spec on observed output.
+   A case is a SEQUENCE of calls made, in this order, on provider objects living in one process,
+   each call paired with what the real object returned.  A single Response presented to a fresh
+   provider is the sequence of length one ([mk]). *)
 From Coq Require Import String List Bool.
 From Verif Require Import Base.Str Base.Run C04.Model C04.Spec.
 Import ListNotations.
 
-Definition case := (input * bool)%type.   (* abstract input, identity observed on the implementation *)
+Definition ev := (op * out)%type.
+Definition case := list ev.
+
+(* events *)
+Definition P me specs binding rs dest conv recip (obs : bool) : ev :=
+  (OParse {| me := me; specs := specs; binding := binding; rs := rs; dest := dest; conv := conv; recip := recip |}, RId obs).
+Definition U specs binding (obs : option (list string)) : ev := (OUrls specs binding, RUrls obs).
+Definition E specs binding (obs : list string) : ev := (OEndp specs binding, REndp obs).
+Definition A specs binding (obs : option string) : ev := (OAcs specs binding, RAcs obs).
 
 Definition mk me specs binding rs dest conv recip (obs : bool) : case :=
-  ({| me := me; specs := specs; binding := binding; rs := rs; dest := dest; conv := conv; recip := recip |}, obs).
+  [P me specs binding rs dest conv recip obs].
 
-Definition agrees (c : case) : bool := Bool.eqb (identity (fst c)) (snd c).
-Definition holds (c : case) : bool := spec_b (fst c) (snd c).
+Definition out_eqb (a b : out) : bool :=
+  match a, b with
+  | RId x, RId y => Bool.eqb x y
+  | RUrls x, RUrls y => opt_eqb (list_eqb String.eqb) x y
+  | REndp x, REndp y => list_eqb String.eqb x y
+  | RAcs x, RAcs y => opt_eqb String.eqb x y
+  | _, _ => false
+  end.
+
+(* the modelled run of the whole call sequence gives exactly the observed results *)
+Definition agrees (c : case) : bool := list_eqb out_eqb (run_ops (map fst c)) (map snd c).
+(* the property over the sequence, on the OBSERVED results *)
+Definition holds (c : case) : bool := spec_trace_b (map fst c) (map snd c).
 (* finding class 1: the v0 behaviour (accepted although some restriction is not satisfied,
-   while another one is) *)
-Definition cls (c : case) : nat :=
-  if snd c && identity_v0 (fst c) && negb (identity (fst c)) then 1 else 0.
+   while another one is) — every failing call of the sequence is of that kind *)
+Definition cls1 (e : ev) : bool :=
+  match e with
+  | (OParse x, RId b) => spec_b x b || (b && identity_v0 x && negb (identity x))
+  | (o, r) => spec_ev_b o r
+  end.
+Definition cls (c : case) : nat := if forallb cls1 c then 1 else 0.
 
 Definition run := run_cases agrees holds cls.
-Definition explain (c : case) := (identity (fst c), identity_v0 (fst c), spec_b (fst c) (snd c)).
+(* per call: (model agrees, spec holds on the observed result) *)
+Definition explain (c : case) := map (fun e => (out_eqb (step (fst e)) (snd e), spec_ev_b (fst e) (snd e))) c.
